@@ -30,7 +30,9 @@ EXPLANATION = (
     "conditions with ifState fixed): at end of file, for every state other than the initial one the call "
     "inclError(ALDOR_E_InclIfEof) executes; with ifState at its initial value each of the #elseif/#else/#endif handlers "
     "reaches its inclError(ALDOR_E_InclUnbal...) call and nothing before the guarding statement leaves the function. "
-    "Not decided: termination, parser recovery, other memory faults.")
+    "K6: in the front-end units (include, scan, token, syscmd, linear, parseby, abnorm, macex, abcheck) every dereference of a list "
+    "cell reached through the `rest` field of another cell (cdr(cdr(x)), car(cdr(x))) sits under an enclosing if/loop/&&/?: condition "
+    "that establishes the inner `rest` non-null. Not decided: termination, parser recovery, other memory faults.")
 
 FROZEN = os.path.join(os.path.dirname(__file__), "frozen")
 
@@ -274,12 +276,39 @@ def exits_digest(f):
         for c in calls(fn["body"]):
             cal = c.get("callee")
             if cal == "exitSuccess":
-                out.append((f.unit, name, "exitSuccess", c["l"]))
+                out.append((f.unit, name, "exitSuccess", c["l"], _error_guarded(fn, c)))
             elif cal in ("exit", "_exit", "_Exit") and len(c["c"]) >= 2:
                 v = const_value(c["c"][1])
                 if v == 0:
-                    out.append((f.unit, name, "exit(0)", c["l"]))
+                    out.append((f.unit, name, "exit(0)", c["l"], _error_guarded(fn, c)))
     return out
+
+
+def _error_guarded(fn, call):
+    """the success exit is immediately preceded, in the same block, by `if (comsgErrorCount() != 0) exitFailure();`"""
+    par = common.parents(fn["body"])
+    ch, p = call, par.get(call["id"])
+    while p is not None and p["k"] != "CompoundStmt":
+        ch, p = p, par.get(p["id"])
+    if p is None:
+        return False
+    sts = [x for x in p["c"] if x is not None]
+    for i, st in enumerate(sts):
+        if st["id"] == ch["id"]:
+            break
+    else:
+        return False
+    for prev in reversed(sts[:i]):
+        if prev["k"] == "IfStmt" and prev["c"][2] is None:
+            c = strip(prev["c"][0])
+            tests = any(y.get("callee") == "comsgErrorCount" for y in calls(prev["c"][0]))
+            nz = c is not None and (c["k"] == "CallExpr" or (c["k"] == "BinaryOperator" and c["op"] in ("!=", ">") and const_value(c["c"][1]) == 0))
+            leaves = any(y.get("callee") == "exitFailure" for y in calls(prev["c"][1]))
+            if tests and nz and leaves:
+                return True
+        if prev["k"] not in ("NullStmt", "DeclStmt"):
+            break
+    return False
 
 
 def both_digest(f):
@@ -443,6 +472,68 @@ def k5(rep):
                               "with no conditional open (state %s) the directive is not reported as unbalanced (%s)" % (sname[init], m))
 
 
+K6_UNITS = ["include.c", "scan.c", "token.c", "syscmd.c", "linear.c", "parseby.c", "abnorm.c", "macex.c", "abcheck.c"]
+
+
+def _truthy_conjuncts(cond, sense=True):
+    """expressions known non-null when `cond` evaluates to `sense`"""
+    c = strip(cond)
+    if c is None:
+        return []
+    if c["k"] == "BinaryOperator" and c["op"] == "&&" and sense:
+        return _truthy_conjuncts(c["c"][0], True) + _truthy_conjuncts(c["c"][1], True)
+    if c["k"] == "BinaryOperator" and c["op"] == "||" and not sense:
+        return _truthy_conjuncts(c["c"][0], False) + _truthy_conjuncts(c["c"][1], False)
+    if c["k"] == "UnaryOperator" and c["op"] == "!":
+        return _truthy_conjuncts(c["c"][0], not sense)
+    if c["k"] == "BinaryOperator" and c["op"] in ("!=", "==") and const_value(c["c"][1]) == 0:
+        return _truthy_conjuncts(c["c"][0], sense if c["op"] == "!=" else not sense)
+    return [render(c)] if sense else []
+
+
+def k6_digest(f):
+    """cdr(cdr(x)) / car(cdr(x)): a list cell reached through the `rest` field of another cell is dereferenced; the inner
+    `rest` must be known non-null from an enclosing condition."""
+    sites, nderef = [], 0
+    for name, fn in f.funcs.items():
+        if "body" not in fn or not fn.get("file", "").endswith(f.unit):
+            continue
+        par = None
+        for x in walk(fn["body"]):
+            if x["k"] == "MemberExpr" and x.get("arrow") and x.get("n") in ("rest", "first"):
+                nderef += 1
+                b = strip(x["c"][0])
+                if b is None or not (b["k"] == "MemberExpr" and b.get("arrow") and b.get("n") == "rest"):
+                    continue
+                if par is None:
+                    par = common.parents(fn["body"])
+                inner = render(b)
+                known = []
+                ch, p = x, par.get(x["id"])
+                while p is not None:
+                    k = p["k"]
+                    if k == "IfStmt" and p["c"][1] is not None and p["c"][1]["id"] == ch["id"]:
+                        known += _truthy_conjuncts(p["c"][0], True)
+                    elif k == "IfStmt" and p["c"][2] is not None and p["c"][2]["id"] == ch["id"]:
+                        known += _truthy_conjuncts(p["c"][0], False)
+                    elif k == "ForStmt" and ch["id"] in (p["c"][3]["id"] if p["c"][3] else -1, p["c"][2]["id"] if p["c"][2] else -1):
+                        known += _truthy_conjuncts(p["c"][1], True)
+                    elif k == "WhileStmt" and p["c"][1] is not None and p["c"][1]["id"] == ch["id"]:
+                        known += _truthy_conjuncts(p["c"][0], True)
+                    elif k == "BinaryOperator" and p["op"] == "&&" and p["c"][1]["id"] == ch["id"]:
+                        known += _truthy_conjuncts(p["c"][0], True)
+                    elif k == "BinaryOperator" and p["op"] == "||" and p["c"][1]["id"] == ch["id"]:
+                        known += _truthy_conjuncts(p["c"][0], False)
+                    elif k == "ConditionalOperator" and p["c"][1]["id"] == ch["id"]:
+                        known += _truthy_conjuncts(p["c"][0], True)
+                    elif k == "ConditionalOperator" and p["c"][2]["id"] == ch["id"]:
+                        known += _truthy_conjuncts(p["c"][0], False)
+                    ch, p = p, par.get(p["id"])
+                sites.append({"unit": f.unit, "func": name, "line": x["l"], "expr": render(x)[:70], "inner": inner,
+                              "guarded": inner in known})
+    return {"sites": sites, "nderef": nderef}
+
+
 def run(tier, only=None):
     rep = common.Report("C07", tier, EXPLANATION)
     units = common.compiler_units()
@@ -466,6 +557,21 @@ def run(tier, only=None):
             rep.violation("K1", key, where, "%s: %s (%s)" % (s["expr"], s["why"], s["origin"]))
 
     k5(rep)
+    # ---- K6 ---------------------------------------------------------------
+    k6 = common.map_units(K6_UNITS, k6_digest, all_trees=True)
+    nd = 0
+    for u in sorted(k6):
+        nd += k6[u]["nderef"]
+        for st in k6[u]["sites"]:
+            key = "list-deref:%s:%s:%s" % (st["unit"], st["func"], st["inner"])
+            where = "%s:%d (%s)" % (st["unit"], st["line"], st["func"])
+            if st["guarded"]:
+                rep.ok("K6", key, sample={"site": where, "expr": st["expr"], "guard": st["inner"]})
+            else:
+                rep.violation("K6", key, where,
+                              "%s dereferences the cell after another one although no enclosing condition establishes that `%s` is "
+                              "non-null: a token list that ends here (input ending at this token) faults" % (st["expr"], st["inner"]))
+    rep.floor("list-cell dereferences scanned in the front-end units", nd, 120)
     # ---- K2 ---------------------------------------------------------------
     f_comsg = common.extract("comsg.c", all_trees=True, all_cfg=True)
     allowed = {"comsgVError": {"post++", "++"}, "comsgVFatal": {"post++", "++"}, "comsgInit": {"="}}
@@ -575,11 +681,16 @@ def run(tier, only=None):
     frozen_exits = json.load(open(os.path.join(FROZEN, "c07_success_exits.json")))
     seen = set()
     for d in dig.values():
-        for unit, func, what, line in d["exits"]:
+        for unit, func, what, line, guarded in d["exits"]:
             key = "%s:%s" % (unit, func)
             seen.add(key)
-            if key in frozen_exits:
-                rep.ok("K3", "success-exit:" + key, nontrivial=False)
+            ent = frozen_exits.get(key)
+            if ent is not None and ent["kind"] == "guarded" and not guarded:
+                rep.violation("K3", "success-exit:" + key, "%s:%d (%s)" % (unit, line, func),
+                              "%s in %s can be reached while compiling a source file and is not preceded by "
+                              "`if (comsgErrorCount() != 0) exitFailure();`: an error already printed is followed by exit status 0" % (what, func))
+            elif ent is not None:
+                rep.ok("K3", "success-exit:" + key, nontrivial=(ent["kind"] == "guarded"))
             else:
                 rep.violation("K3", "success-exit:" + key, "%s:%d (%s)" % (unit, line, func),
                               "%s called from %s, which is not in the frozen set of places that may end the process with "
